@@ -111,6 +111,13 @@ class Interp:
 
             def load(self):
                 self.loads += 1
+                text = it.cfg.get('res_text', {}).get(self.name)
+                if text is not None:
+                    # a resource that is a piece of text which happens to
+                    # look like a reference (a template, a world file's own
+                    # source): it is the resource, not a reference
+                    it.probes['resource_text_looks_like_a_reference'] += 1
+                    return ''.join([text, ''])
                 return ('resource', self.name, self.loads, self.tree)
 
         self.ValHandle = ValHandle
@@ -597,6 +604,11 @@ def generate(prop, run_seed, tier='quick', tolerate=frozenset()):
            'resources': resources, 'standalone': standalone,
            'split_char': crng.choice([None] * 6 + [':', '|']),
            'preload': [r for r in resources if crng.random() < .4],
+           'res_text': ({r: crng.choice([
+               '${verif_fixtures.OBJ}', '${os.sep}', '${verif_fixtures.NUM}',
+               '$handle{a}', '${player.name} joined', '$res{b}'])
+               for r in resources if crng.random() < .5}
+               if crng.random() < .1 else {}),
            'handle_key': crng.choice(['w', 'worlds/w1', 'worlds/l1/w',
                                       'deep/er/still/w', 'w2'])}
     ops = [['write', gen_desc(rng, resources)], ['load'], ['enable']]
